@@ -15,9 +15,10 @@
 (*   load-under-L2 (L1 = L2: round trip; pickle every protocol, copy,        *)
 (*   deepcopy): TypeError for types that cannot be pickled, "same" (every    *)
 (*   field keeps its value, XformRef gives the identity structure), "raise"  *)
-(*   when the layouts differ in member names / class / dict, "byname" when   *)
-(*   only kinds differ (the load must act like assigning every field BY NAME *)
-(*   or raise).                                                              *)
+(*   when the layouts differ in member names / class / dict, "sameorraise"   *)
+(*   when the same members are declared differently (moved between classes), *)
+(*   "byname" when kinds differ (the load must act like assigning every      *)
+(*   field BY NAME, or raise).                                               *)
 (* Impl-shaped: AnalyseDeclarationsTransform._inject_pickle_methods          *)
 (*   (Compiler/ParseTreeTransforms.py) + ExtensionTypes.c: members of the    *)
 (*   whole chain sorted by name, state tuple in that order (+ the instance   *)
@@ -124,6 +125,8 @@ RefPicklable(L, l) ==
   /\ "ptr" \notin KindsAt(L, l)
   /\ "struct" \in KindsAt(L, l) => Forced(L, l)
 
+ChainEq(L1, L2, l) == /\ \A x \in Names : (L1.mem[x].lvl \in 0..l \/ L2.mem[x].lvl \in 0..l) => L1.mem[x] = L2.mem[x]
+                      /\ HasDict(L1, l) = HasDict(L2, l) /\ (HasDict(L1, l) => L1.dict = L2.dict)
 SameKinds(L1, L2, l) == \A x \in Members(L1, l) : KindOf(L1, x) = KindOf(L2, x)
 
 Demand(L1, L2, inst) ==
@@ -134,7 +137,8 @@ Demand(L1, L2, inst) ==
   ELSE IF ~RefPicklable(L2, l) THEN "raise"                        \* ... or cannot be unpickled any more
   ELSE IF Members(L1, l) # Members(L2, l) THEN "raise"             \* different attribute names
   ELSE IF inst.d # 0 /\ ~(HasDict(L2, l) \/ inst.py) THEN "raise"  \* nowhere to put the instance dict
-  ELSE IF SameKinds(L1, L2, l) THEN "same" ELSE "byname"
+  ELSE IF ChainEq(L1, L2, l) THEN "same"                           \* the classes up to C<l> are declared identically
+  ELSE IF SameKinds(L1, L2, l) THEN "sameorraise" ELSE "byname"    \* a changed layout may always be refused
 
 ---------------------------------------------------------------------------
 (* implementation-shaped *)
@@ -194,13 +198,14 @@ Impl(L1, L2, inst, op, alg) ==
 Meets(d, o) == \/ d = "n/a"
                \/ d = "TypeError" /\ o = "TypeError"
                \/ d = "raise" /\ o = "raise"
-               \/ d \in {"same", "byname"} /\ o = "ok"
+               \/ d = "same" /\ o = "ok"
+               \/ d \in {"sameorraise", "byname"} /\ o \in {"ok", "raise"}
 
 SameOps == {"pickle", "copy", "deepcopy"}
 PairX(L1, L2, inst) == Meets(Demand(L1, L2, inst), Impl(L1, L2, inst, "pickle", 1))
 PairSame(L, inst) == LET d == Demand(L, L, inst) IN
                      d # "n/a" => /\ \A op \in SameOps : Meets(d, Impl(L, L, inst, op, 1))
-                                  /\ \A alg \in {2, 3} : Meets(d, Impl(L, L, inst, "pickle", alg))
+                                  /\ \A alg \in {2, 3}, op \in {"pickle", "copy"} : Meets(d, Impl(L, L, inst, op, alg))
 PairOK(L1, L2, inst) == IF L1 = L2 THEN PairSame(L1, inst) ELSE PairX(L1, L2, inst)
 
 ---------------------------------------------------------------------------
@@ -308,12 +313,14 @@ Case(i, j, k, op, alg) ==
       ms == Members(L1, inst.lvl) IN
   [i |-> i, j |-> j, k |-> k, op |-> op, alg |-> alg, demand |-> d, impl |-> Impl(L1, L2, inst, op, alg),
    pre |-> [x \in ms |-> Tag(L1, x, inst)],
-   exp |-> IF d = "same" THEN [x \in ms |-> XformRef(op, Tag(L1, x, inst))] ELSE [x \in {} |-> ""],
-   dexp |-> IF d \in {"same", "byname"} THEN [q \in 1..Len(DictSeq(inst.d)) |-> <<DictSeq(inst.d)[q][1], XformRef(op, DictSeq(inst.d)[q][2])>>]
+   exp |-> IF d \in {"same", "sameorraise"} THEN [x \in ms |-> XformRef(op, Tag(L1, x, inst))] ELSE [x \in {} |-> ""],
+   dexp |-> IF d \in {"same", "sameorraise", "byname"} THEN [q \in 1..Len(DictSeq(inst.d)) |-> <<DictSeq(inst.d)[q][1], XformRef(op, DictSeq(inst.d)[q][2])>>]
             ELSE <<>>]
 
 Cases == {Case(i, i, k, op, 1) : i \in 1..MaxVer, k \in 1..NVals, op \in SameOps}
-         \cup {Case(i, i, k, "pickle", alg) : i \in 1..MaxVer, k \in 1..NVals, alg \in {2, 3}}
+         \* data of an older release (sha1 / md5 digest): replayed by calling __pyx_unpickle_<cls> with the reduce value's
+         \* own state, which is as shallow as copy.copy
+         \cup {Case(i, i, k, "copy", alg) : i \in 1..MaxVer, k \in 1..NVals, alg \in {2, 3}}
          \cup {Case(ij[1], ij[2], k, "pickle", 1) : ij \in {p \in (1..MaxVer) \X (1..MaxVer) : p[1] # p[2]}, k \in 1..NVals}
 
 Publish == (Dump /\ done) =>
